@@ -223,10 +223,16 @@ func (s *memoryStore) RemoveNode(nodeID store.NodeID) error {
 // empty list, if none are available.
 func (s *memoryStore) ActiveHosts(kind string, limit int) ([]store.Node, error) {
 	seenSince := time.Now().Add(-store.ExpireInterval)
-	r := make([]store.Node, 0, limit)
 
 	s.mu.Lock()
 	defer s.mu.Unlock()
+	// The limit comes from a request: never reserve room for more nodes than
+	// the store holds.
+	size := limit
+	if size <= 0 || size > len(s.nodes) {
+		size = len(s.nodes)
+	}
+	r := make([]store.Node, 0, size)
 	// TODO: Do something other than random, such as by availability?
 	for _, n := range s.nodes {
 		// Ranging over a map is implicitly random, so
